@@ -1244,3 +1244,21 @@ TABLE["C17"] += [
     B("counter-key-from-the-class-without-template-arguments", {"Q8"},
       (XP, "        self.print_if_verbose(f\"Extracting docs for {cpp_class}.{cpp_method}\")\n", "        cpp_class = cpp_class.split('<', 1)[0].strip()\n        self.print_if_verbose(f\"Extracting docs for {cpp_class}.{cpp_method}\")\n")),
 ]
+TABLE["C09"] += [
+    B("function-template-arguments-spelt-with-the-flattened-name", {"W8"},
+      (TI + "function.py", "            instantiation_list = [x.to_cpp() for x in self.instantiations]", "            instantiation_list = [\"::\".join(x.namespaces + [x.instantiated_name()]) for x in self.instantiations]")),
+]
+for _p in ("C06", "C11", "C05", "C10"):
+    TABLE[_p] += [
+        B("templated-method-object-rebound-to-its-spelling", {"U1"},
+          (MW, "            method_name = method.to_cpp()\n            obj_start = 'obj->'\n", "            method_name = method.to_cpp()\n            obj_start = 'obj->'\n            if method.instantiations:\n                method = method.to_cpp()\n")),
+    ]
+_TO_CPP_TWICE = (IP + "type.py", "        if self.instantiations:\n            cpp_name = self.name + \"<{}>\".format(\", \".join(\n                [inst.to_cpp() for inst in self.instantiations]))\n        else:\n            cpp_name = self.name\n",
+                 "        cpp_name = self.name\n        if self.instantiations and all(inst.to_cpp() for inst in self.instantiations):\n            cpp_name += \"<{}>\".format(\", \".join(inst.to_cpp() for inst in self.instantiations))\n")
+TABLE["C19"] += [
+    B("types-rendered-twice-per-level-and-compared-while-parsing", {"Z6"},
+      _TO_CPP_TWICE,
+      (IP + "template.py", "                    self.instantiations.append(x)\n", "                    if x not in self.instantiations:\n                        self.instantiations.append(x)\n")),
+    # the renderer alone is not reached while parsing: parse cost (this property) is unaffected
+    N("types-rendered-twice-per-level-outside-parsing", _TO_CPP_TWICE),
+]
